@@ -54,18 +54,32 @@ type Parser struct {
 	fieldScanner *FieldParser
 	// consumed tells whether any input was consumed by the scanner.
 	consumed bool
+	// afterCR tells that the last event ended with a CR: a LF that follows it is the second
+	// half of the same line ending, not a blank line.
+	afterCR bool
 }
 
 // split is splitFunc, plus keeping track of whether the first event starts at the very beginning
 // of the input: only there a BOM may be removed.
 func (r *Parser) split(data []byte, atEOF bool) (advance int, token []byte, err error) {
+	if r.afterCR && len(data) > 0 {
+		r.afterCR = false
+		if data[0] == '\n' {
+			// The CR and the LF of a CRLF were read separately. Consume the LF right away
+			// instead of counting it as a blank line in front of the next event.
+			return 1, nil, nil
+		}
+	}
 	advance, token, err = splitFunc(data, atEOF)
-	if !r.consumed && advance > 0 {
-		r.consumed = true
-		if advance != len(token) {
-			// Blank lines were skipped before the first event, so it does not start
-			// the input: a BOM in front of it is part of its first line.
-			r.fieldScanner.RemoveBOM(false)
+	if advance > 0 {
+		r.afterCR = data[advance-1] == '\r'
+		if !r.consumed {
+			r.consumed = true
+			if advance != len(token) {
+				// Blank lines were skipped before the first event, so it does not start
+				// the input: a BOM in front of it is part of its first line.
+				r.fieldScanner.RemoveBOM(false)
+			}
 		}
 	}
 	return advance, token, err
